@@ -359,3 +359,74 @@ def _todpod(ctx, rep, eng):
         if n:
             rep.add("hour-in-pod", rule_construct(rule, "hour/minute kept"), rule.where, bad is None,
                     bad or "{} paths".format(n))
+        _pod_modifier_invariance(ctx, rep, eng, rule, ti)
+
+
+def _base_pod(key, bases):
+    for b in sorted(bases, key=len, reverse=True):
+        if key.endswith(b):
+            return b
+    return None
+
+
+def _pod_modifier_invariance(ctx, rep, eng, rule, ti):
+    """'3 in the late afternoon' must be the hour '3 in the afternoon' is: the hour chosen
+    for a modified part of day equals the one chosen for its base part of day."""
+    from ..e3_rules import Shape
+    table = ctx.model.const("ctparse.types", "pod_hours")
+    if not isinstance(table, dict):
+        return
+    rm = ctx.rb.rule_mods[0]
+    pods = ctx.model.env(rm.name).get("_pods")
+    bases = [p[0] for p in pods] if isinstance(pods, list) else []
+    if not bases:
+        return
+    tod = pod = None
+    for sh in eng.R.values():
+        if sh.cls.name == "Time":
+            pr = sh.presence()
+            if pr == frozenset({"hour", "minute"}):
+                tod = sh
+            elif pr == frozenset({"POD"}):
+                pod = sh
+    if tod is None or pod is None:
+        return
+    results = {}
+    und = None
+    for key in sorted(table):
+        psh = Shape(pod.cls, dict(pod.attrs), pod.cal)
+        psh.attrs["POD"] = StrV({key})
+        shapes = [None, None]
+        shapes[ti] = tod
+        shapes[1 - ti] = psh
+        run = eng.run_rule(rule, shapes)
+        if run.error:
+            und = run.error
+            break
+        try:
+            summ = Summary(run.paths, want_fields=("hour", "minute"))
+        except Undecided as e:
+            und = str(e)
+            break
+        pn = rule.params[ti + 1]
+        lh = ("attr", ("param", ti, pn), "hour")
+        lm = ("attr", ("param", ti, pn), "minute")
+        row = []
+        for h in range(24):
+            res = summ.evaluate({lh: h, lm: 0})
+            row.append(tuple(sorted((r[0], r[1]["hour"] if r[1] else None) for r in res)))
+        results[key] = tuple(row)
+    c = rule_construct(rule, "modifier invariance")
+    if und:
+        rep.undecided("hour-in-pod", c, rule.where, und)
+        return
+    bad = None
+    for key, row in sorted(results.items()):
+        b = _base_pod(key, bases)
+        if b is None or b == key or b not in results:
+            continue
+        if row != results[b]:
+            hs = [h for h in range(24) if row[h] != results[b][h]]
+            bad = bad or "with part of day '{}' hour {} gives {} but with '{}' it gives {}".format(
+                key, hs[0], row[hs[0]], b, results[b][hs[0]])
+    rep.add("hour-in-pod", c, rule.where, bad is None, bad or "{} parts of day".format(len(results)))
